@@ -308,7 +308,7 @@ func ExpandFirst(p *core.Prog, r *core.Report) {
 					if st, isSt := ref.(*ssa.Store); isSt && st.Addr == ssa.Value(al) {
 						if ex, isEx := st.Val.(*ssa.Extract); isEx {
 							if cc, isC := ex.Tuple.(*ssa.Call); isC {
-								if cg := core.StaticCallee(cc); cg != nil && cg.Name() == "deepCloneSchema" && strings.Contains(opDesc(cc.Call.Args[0], 0), "recv.schema") {
+								if cg := core.StaticCallee(cc); cg != nil && core.BaseName(cg) == "deepCloneSchema" && strings.Contains(opDesc(cc.Call.Args[0], 0), "recv.schema") {
 									meta = true
 								}
 							}
